@@ -6,6 +6,9 @@
 package c10
 
 import (
+	"fmt"
+	"runtime/debug"
+
 	"verif/core"
 )
 
@@ -55,4 +58,20 @@ func bucket(n int) string {
 	default:
 		return "100+"
 	}
+}
+
+// errText formats an error that may point into a file mapping that has been
+// unmapped meanwhile (prefixset.Config.LoadPrefixSet returns netip's parse
+// error, which quotes its input, after munmap). A fault while formatting is
+// turned into a description instead of killing the process.
+func errText(err error) (s string, faulted bool) {
+	old := debug.SetPanicOnFault(true)
+	defer debug.SetPanicOnFault(old)
+	defer func() {
+		if p := recover(); p != nil {
+			s = fmt.Sprintf("<%T: its text cannot be read, it refers to memory that is no longer mapped (%v)>", err, p)
+			faulted = true
+		}
+	}()
+	return err.Error(), false
 }
